@@ -262,6 +262,19 @@ fn run_scenario(ctl: &Arc<Ctl>, multi: bool, ops: &[Value]) -> Vec<String> {
         match kind {
             "call" => {
                 let c = op["c"].as_str().unwrap();
+                // the model only lets a caller call again after its previous call returned; on the multi-thread
+                // runtime a woken caller may not have been scheduled yet, so wait for it (a real hang is reported by
+                // finish_all as a timeout event)
+                if ctl.known(c) {
+                    let t0 = Instant::now();
+                    while !ctl.actor_state(c).1 && t0.elapsed() < Duration::from_secs(3) {
+                        std::thread::sleep(Duration::from_micros(200));
+                    }
+                    if !ctl.actor_state(c).1 {
+                        SKIPPED.fetch_add(1, std::sync::atomic::Ordering::SeqCst);
+                        continue;
+                    }
+                }
                 w.call(c, op["k"].as_str().unwrap(), op["v"].as_i64().unwrap_or(1), None);
                 if !actors.contains(&c.to_string()) {
                     actors.push(c.to_string());
